@@ -141,4 +141,15 @@ PROPERTIES = {
         "targets": [{"name": "c12_rt_g%d" % g, "src": "c12_io_roundtrip.cpp", "mode": "asan", "rapidcheck": True, "io": True,
                      "flags": ["-DC12_GROUP=%d" % g, "-DC12_NGROUPS=4", '-DVERIF_TARGET_NAME="c12_rt_g%d"' % g], "subtargets": ["rt"], "group": g} for g in range(4)],
     },
+    "C13": {
+        "level": "exploration",
+        "assumptions": [
+            "the reference is the library's own full read_image in the file's native type (the property is a consistency statement); an error common to all paths is C12's business",
+            "sub-rectangles are generated inside the image only; a destination view LARGER than the image is not covered by the statement (the formats disagree on it) and is not generated",
+            "scanline readers reject some variants with an exception (TARGA RLE / top origin, tiled TIFF, RLE BMP): counted, not compared",
+            "the native type of a file is found by trial (colour types first: win32 palette BMPs are rgba8, OS/2 and RLE palette BMPs rgb8, as is_allowed() defines)",
+        ],
+        "targets": [{"name": "c13_agree_f%d" % f, "src": "c13_io_consistency.cpp", "mode": "asan", "rapidcheck": True, "io": True,
+                     "flags": ["-DC13_FMT=%d" % f, '-DVERIF_TARGET_NAME="c13_agree_f%d"' % f], "subtargets": ["agree"], "fmt": f} for f in range(6)],
+    },
 }
